@@ -181,9 +181,9 @@ impl<'a> G<'a> {
         let sizes_t: [(u64, u32); 9] = [(189, 3), (192, 2), (249, 2), (250, 2), (499, 2), (500, 2), (799, 1), (800, 1), (1024, 1)];
         let mut sizes: Vec<(u64, u32)> = sizes_q.to_vec();
         sizes.push((189, 2));
-        if self.rng.chance(1, 3) {
+        if self.rng.chance(1, 2) {
             // rarely, even in the quick tier: a size in the 8-bit-window regime of Pippenger
-            sizes.push((800, 1));
+            sizes.push((800, 2));
         }
         if self.rng.chance(1, 20) || (self.cfg.thorough && self.rng.chance(1, 3)) {
             // beyond any size the repository's tests use (a batch of 1024 signatures has 2049 terms)
@@ -211,7 +211,7 @@ impl<'a> G<'a> {
             ss.push(s);
             hs.push(Some(live[self.rng.below(live.len() as u64) as usize]));
         }
-        if entry == 2 && n > 0 && self.rng.chance(3, 10) {
+        if entry == 2 && n > 0 && self.rng.chance(if n >= 189 { 6 } else { 3 }, 10) {
             let pos = match self.rng.below(4) {
                 0 => {
                     bump(&mut self.c, "fault:none_point_first");
@@ -231,7 +231,7 @@ impl<'a> G<'a> {
                 }
             };
             hs[pos] = None;
-            if self.rng.chance(1, 3) {
+            if self.rng.chance(1, 2) {
                 // the missing point sits next to a zero scalar (a term that contributes nothing must still count)
                 bump(&mut self.c, "fault:none_point_with_zero_scalar");
                 ss[pos] = Sc { b: B(vec![0u8; 32]), k: 1 };
